@@ -1,7 +1,7 @@
 (* C09 - dot product: sign carried by the angle.  Pinned theorems only. *)
 From Coq Require Import ZArith List Bool Reals Lra.
 From Flocq Require Import Core BinarySingleNaN.
-Require Import GV.FloatBase GV.FloatLemmas GV.AngleM GV.AngleProofs GV.GeonumM GV.GeonumProofs GV.TraitsM GV.NewProofs GV.CtorProofs GV.ClosureProofs GV.TraitsProofs GV.BoundProofs GV.PiBounds GV.TrigProofs GV.DotValue.
+Require Import GV.FloatBase GV.FloatLemmas GV.AngleM GV.AngleProofs GV.GeonumM GV.GeonumProofs GV.TraitsM GV.NewProofs GV.CtorProofs GV.ClosureProofs GV.TraitsProofs GV.BoundProofs GV.PiBounds GV.TrigProofs GV.DotValue GV.DistValue GV.DirProofs GV.SymProofs.
 Open Scope R_scope.
 
 (* for EVERY libm: |value| at blade 0 (value >= 0) or blade 2 (value < 0), remainder exactly 0 *)
@@ -70,3 +70,12 @@ Print Assumptions C09_orthogonal_value.
 Theorem C09_value_hyps_inhabited : cos_acc ideal_libm (/ 4503599627370496) /\ sin_acc ideal_libm (/ 4503599627370496) /\ / 4503599627370496 <= / 1000.
 Proof. exact dot_hyps_inhabited. Qed.
 Print Assumptions C09_value_hyps_inhabited.
+
+(* symmetry: a.b and b.a (computed from two different angle differences) agree within twice the value tolerance *)
+Theorem C09_symmetry : forall (L : libm) (u : R) a b, cos_acc L u -> u <= / 1000 ->
+  canonp (rem (ang a)) -> canonp (rem (ang b)) -> (0 <= blade (ang a))%Z -> (0 <= blade (ang b))%Z ->
+  fin (dot_value L a b) -> fin (dot_value L b a) ->
+  Rabs (R_ (dot_value L a b) - R_ (dot_value L b a))
+    <= 2 * (Rabs (R_ (mag a) * R_ (mag b)) * (u + 10002 / 100000000000000) + bpow radix2 (-1073)).
+Proof. exact dot_symmetry. Qed.
+Print Assumptions C09_symmetry.
